@@ -112,6 +112,21 @@ def eval_call(mod, expr):
     return eval(expr, ns)
 
 
+DOUBLE_CLASSES = {'CFrame', 'CSeries', 'Mask', 'SymSeries', 'SymFrame', 'SymIndex', '_StrAcc', 'FakePD', 'FakeNP',
+                  'FakeFS', 'FakeOS', 'FakeShutil', '_FakeFile', '_FakePath', 'FakeConnection', 'FakeDB', 'FakeCursor',
+                  'FakeRandom'}
+
+
+def _double_signature_error(e):
+    """the code under test called a method of an environment double with arguments the double does not model
+    (e.g. DataFrame.sort_values(..., ignore_index=True)): undecided, not a violation"""
+    if not isinstance(e, TypeError):
+        return False
+    m = re.match(r"^(?:\w+\.)*(\w+)\.(\w+)\(\) (got an unexpected keyword argument|got multiple values|takes |missing )",
+                 str(e))
+    return bool(m) and m.group(1) in DOUBLE_CLASSES
+
+
 def run_replay(mod, fn, expr):
     """True counterexample iff the harness function returns falsy or raises Exception."""
     try:
@@ -121,7 +136,7 @@ def run_replay(mod, fn, expr):
     try:
         r = eval_call(mod, expr)
     except Exception as e:      # noqa
-        if type(e).__name__ in ('DoubleUnsupported', 'SQLDoubleUnsupported'):
+        if type(e).__name__ in ('DoubleUnsupported', 'SQLDoubleUnsupported') or _double_signature_error(e):
             return {'status': 'unsupported', 'how': 'environment double: %s' % str(e)[:300]}
         return {'status': 'reproduced', 'how': 'raises %s: %s' % (type(e).__name__, str(e)[:300]),
                 'traceback': traceback.format_exc()[-1500:]}
